@@ -243,6 +243,15 @@ type vfRtpfbEnv struct {
 	ccArrBase   time.Time
 }
 
+// vfTwccExtID: streams negotiate the transport-cc extension under different ids (5 for odd SSRCs, 1 for even ones)
+func vfTwccExtID(ssrc uint32) uint8 {
+	if ssrc%2 == 1 {
+		return 5
+	}
+
+	return 1
+}
+
 func (e *vfRtpfbEnv) writer(ssrc uint32, useTWCC bool) interceptor.RTPWriter {
 	k := [2]uint32{ssrc, 0}
 	if useTWCC {
@@ -253,7 +262,7 @@ func (e *vfRtpfbEnv) writer(ssrc uint32, useTWCC bool) interceptor.RTPWriter {
 	}
 	info := &interceptor.StreamInfo{SSRC: ssrc}
 	if useTWCC {
-		info.RTPHeaderExtensions = []interceptor.RTPHeaderExtension{{URI: transportCCURI, ID: 1}}
+		info.RTPHeaderExtensions = []interceptor.RTPHeaderExtension{{URI: transportCCURI, ID: int(vfTwccExtID(ssrc))}}
 	}
 	w := e.ic.BindLocalStream(info, interceptor.RTPWriterFunc(
 		func(_ *rtp.Header, payload []byte, _ interceptor.Attributes) (int, error) { return len(payload), nil }))
@@ -272,10 +281,10 @@ func (e *vfRtpfbEnv) run(st *vfFbStep) {
 			if err != nil {
 				e.t.Fatalf("VERIF-INFRA twcc ext: %v", err)
 			}
-			if err = hdr.SetExtension(1, ext); err != nil {
+			if err = hdr.SetExtension(vfTwccExtID(st.SSRC), ext); err != nil {
 				e.t.Fatalf("VERIF-INFRA set ext: %v", err)
 			}
-			attrs.Set(cc.TwccExtensionAttributesKey, uint8(1))
+			attrs.Set(cc.TwccExtensionAttributesKey, vfTwccExtID(st.SSRC))
 		}
 		hsz = hdr.MarshalSize()
 		e.now = vfT0.Add(time.Duration(st.Dep+int64(i)*st.Gap) * time.Microsecond)
